@@ -335,9 +335,15 @@ def r_json_kinds(E):
                                      "parameters are in the writer's explicit whitelist")
     rel, tj = pm.find_function(MO, "ModelingObject.to_json")
     whitelist = set()
+    # the name of an attribute is the first variable of the loop over self.__dict__.items()
+    keyvars = {"key"}
     for n in ast.walk(tj):
-        if isinstance(n, ast.Compare) and isinstance(n.ops[0], ast.In) and isinstance(n.comparators[0], ast.List) \
-                and norm(n.left) == "key":
+        if isinstance(n, (ast.For, ast.comprehension)) and "__dict__" in norm(n.iter) and isinstance(n.target, ast.Tuple) \
+                and n.target.elts and isinstance(n.target.elts[0], ast.Name):
+            keyvars.add(n.target.elts[0].id)
+    for n in ast.walk(tj):
+        if isinstance(n, ast.Compare) and isinstance(n.ops[0], ast.In) \
+                and isinstance(n.comparators[0], (ast.List, ast.Tuple, ast.Set)) and norm(n.left) in keyvars:
             whitelist |= {e.value for e in n.comparators[0].elts if isinstance(e, ast.Constant)}
     tests = [n.test for n in ast.walk(tj) if isinstance(n, ast.If)]
 
@@ -488,7 +494,9 @@ def r_json_cls(E):
                 f"loaded back", pm.path_of(cn), pm.classes[cn].node.lineno, cn))
     rel2, j = pm.find_function(J2S, "json_to_system")
     res.instances += 1
-    if "for modeling_object_class in ALL_EFOOTPRINT_CLASSES" not in norm(j):
+    from_all = any(isinstance(n, (ast.comprehension, ast.For)) and any(
+        isinstance(x, ast.Name) and x.id == "ALL_EFOOTPRINT_CLASSES" for x in ast.walk(n.iter)) for n in ast.walk(j))
+    if not from_all:
         res.findings.append(Finding("R-JSON-CLS", "class table source", "json_to_system no longer builds its class table "
                                     "from ALL_EFOOTPRINT_CLASSES", rel2, j.lineno, "json_to_system"))
     # the writer keys objects by class_as_simple_str == type(self).__name__
@@ -520,12 +528,17 @@ def _validator_forms(fn):
     handled = set()
     top = None
     for n in ast.walk(fn):
-        if isinstance(n, ast.If) and norm(n.test) == "get_origin(annotation)":
+        t = n.test if isinstance(n, ast.If) else None
+        if isinstance(t, ast.UnaryOp) and isinstance(t.op, ast.Not):
+            t = t.operand
+        if isinstance(t, ast.Call) and norm(t.func) == "get_origin" and len(t.args) == 1 and isinstance(t.args[0], ast.Name):
             top = n
     if top is None:
         return None
+    negated = isinstance(top.test, ast.UnaryOp)
+    top_body, top_else = (top.orelse, top.body) if negated else (top.body, top.orelse)
     names_in_origin_tests = set()
-    for n in [top] + [x for b in top.body for x in ast.walk(b)]:
+    for n in [top] + [x for b in top_body for x in ast.walk(b)]:
         if isinstance(n, ast.Compare) and "get_origin" in norm(n.left):
             for c in n.comparators:
                 names_in_origin_tests |= {x.id for x in ast.walk(c) if isinstance(x, ast.Name)}
@@ -539,8 +552,13 @@ def _validator_forms(fn):
     if names_in_origin_tests & {"Union", "UnionType"}:
         handled.add("union")
     # the elif chain after it handles plain classes
-    if top.orelse and "isinstance(input_value, annotation)" in norm(ast.Module(body=top.orelse, type_ignores=[])):
-        handled.add("class")
+    # (an isinstance test of the value — the validator's third parameter — against the annotation itself)
+    val = fn.args.args[2].arg if len(fn.args.args) > 2 else "input_value"
+    for b in top_else:
+        for c in ast.walk(b):
+            if isinstance(c, ast.Call) and isinstance(c.func, ast.Name) and c.func.id == "isinstance" and len(c.args) == 2 \
+                    and norm(c.args[0]) == val and isinstance(c.args[1], ast.Name):
+                handled.add("class")
     return handled
 
 
@@ -570,6 +588,7 @@ def r_val_forms(E):
                     f"wrong dimension or negative", pm.path_of(pm.ctor(c)[0]), pm.ctor(c)[1].lineno, f"{c}.__init__"))
     # the checks inside the class branch: type, dimension, sign
     vparam = fn.args.args[2].arg if len(fn.args.args) > 2 else "input_value"
+    from ..astutil import fully_expanded as _fx
     cmps = [n for n in ast.walk(fn) if isinstance(n, ast.Compare)]
     isins = [c for c in ast.walk(fn) if isinstance(c, ast.Call) and norm(c.func) == "isinstance" and len(c.args) == 2]
     present = {
@@ -577,7 +596,7 @@ def r_val_forms(E):
                          and norm(c.comparators[0]).endswith(".dimensionality") and vparam in norm(c) for c in cmps),
         "sign": any(isinstance(c.ops[0], (ast.Lt, ast.LtE)) and vparam in norm(c.left) and "magnitude" in norm(c.left)
                     and norm(c.comparators[0]) == "0" for c in cmps),
-        "type": any(norm(c.args[0]) == vparam and norm(c.args[1]) == "annotation" for c in isins),
+        "type": any(norm(c.args[0]) == vparam and norm(_fx(c.args[1], fn)).endswith(".annotation") for c in isins),
         "list element type": any(norm(c.args[0]) != vparam and isinstance(getattr(c, "_parent", None), (ast.GeneratorExp, ast.ListComp))
                                  for c in isins),
     }
@@ -596,6 +615,18 @@ def r_val_forms(E):
     res.samples = [{"form": k, "examples": v[:3]} for k, v in forms.items()]
     res.floor = 100
     return res
+
+
+def _is_change_pair(fn, old, new):
+    """`old, new = <changes list>[i]` (or the target of a loop over it) binds exactly these two names, in this order"""
+    for a in ast.walk(fn):
+        if isinstance(a, (ast.Assign, ast.For)):
+            t = a.targets[0] if isinstance(a, ast.Assign) else a.target
+            src = a.value if isinstance(a, ast.Assign) else a.iter
+            if isinstance(t, ast.Tuple) and len(t.elts) == 2 and all(isinstance(x, ast.Name) for x in t.elts) \
+                    and "changes_list" in norm(src) and [t.elts[0].id, t.elts[1].id] == [old, new]:
+                return True
+    return False
 
 
 @rule("R-VAL-SIB")
@@ -628,7 +659,10 @@ def r_val_sib(E):
         if path == "construction" and args[:2] != own:
             res.findings.append(Finding("R-VAL-SIB", f"{path} {v} arguments", f"{fn.name} calls {v}({', '.join(args[:2])})",
                                         r, c.lineno, fn.name))
-        if path == "update" and v.startswith("check_input") and args[:2] != ["old_value.attr_name_in_mod_obj_container", "new_value"]:
+        if path == "update" and v.startswith("check_input") and not (
+                len(c.args) >= 2 and isinstance(c.args[0], ast.Attribute) and c.args[0].attr == "attr_name_in_mod_obj_container"
+                and isinstance(c.args[0].value, ast.Name) and isinstance(c.args[1], ast.Name)
+                and _is_change_pair(fn, c.args[0].value.id, c.args[1].id)):
             res.findings.append(Finding("R-VAL-SIB", f"{path} {v} arguments", f"{fn.name} calls {v}({', '.join(args[:2])})",
                                         r, c.lineno, fn.name))
         # construction: guarded only by check_input_validity and not for calculated attributes
